@@ -523,7 +523,9 @@ func main() {
 		for o := range res.Outcomes {
 			r.Outcome(part + "/" + name + ": " + o)
 		}
-		if res.Capped {
+		if vsched.Hung {
+			r.NotExhaustive("a thread never reached another scheduling point (reported as a violation); exploration stopped")
+		} else if res.Capped {
 			r.NotExhaustive(fmt.Sprintf("%s %s: state cap reached after %d states", part, name, res.States))
 		}
 		for _, m := range res.Internal {
